@@ -535,6 +535,22 @@ func gen(seed uint64, tier string) {
 		b := toPoly(scaleRingsXY([]ring{respell(big, spell{closed: true}), respell(hole, spell{closed: true, rev: true})}, e[0], e[1]))
 		fmt.Fprintf(out, "area g %s\ncent g %s\nmcent g %s\n", G(b), G(b), G(geom.MultiPolygon{b}))
 	}
+	// polygons far from the origin relative to their size (finding 9, `known`: catastrophic cancellation in the
+	// centroid sums, relative error ~ 2^-53 (offset/extent)^2); emitted only with VERIF_C03_FAR_OFFSET=1 until
+	// KNOWN_FINDINGS.json (shared, built by bin/mkfindings) carries the entry of findings/C03.json
+	if os.Getenv("VERIF_C03_FAR_OFFSET") == "1" {
+		for _, o := range [][2]float64{{1 << 30, 1 << 30}, {1e9, 1e9}, {500000.123, 5000000.456}, {1e12, -1e12}} {
+			q := make([]ring, 2)
+			for i, rr := range []ring{respell(big, spell{closed: true}), respell(hole, spell{closed: true, rev: true})} {
+				q[i] = make(ring, len(rr))
+				for j, v := range rr {
+					q[i][j] = geom.Point{X: v.X + o[0], Y: v.Y + o[1]}
+				}
+			}
+			b := toPoly(q)
+			fmt.Fprintf(out, "area f %s\ncent f %s\nmcent f %s\n", G(b), G(b), G(geom.MultiPolygon{b}))
+		}
+	}
 	for _, mp := range []geom.MultiPolygon{{}, {{}}, {{sqcwC}}, {{sqC}, {respell(hole, spell{closed: true, rev: true})}},
 		{{sqcwC}, {respell(big, spell{closed: true}), respell(hole, spell{closed: true})}}} {
 		fmt.Fprintf(out, "marea g %s\nmcent g %s\n", G(mp), G(mp))
